@@ -40,8 +40,13 @@ pub fn record(args: &[String]) {
 	let steps: u64 = arg(args, 2, "steps");
 	let mut tw = TraceWriter::create(&args[3]);
 	let mut rng = Rng::new(seed ^ 0x1a35);
+	// optional 5th argument: only this kind (more programs of one kind; lengths and laws still cycle with the round)
+	let only = args.get(4).map(String::as_str);
 	for r in 0..rounds {
 		for (ki, kind) in KINDS.iter().enumerate() {
+			if only.is_some_and(|o| o != *kind) {
+				continue;
+			}
 			let maxn = if *kind == "WSMA" { 127 } else { 254 };
 			let n = match (r + ki as u64) % 5 {
 				0 => min_n(kind),
@@ -59,7 +64,7 @@ pub fn record(args: &[String]) {
 					_ => true,
 				})
 				.collect();
-			let law = laws[((seed + r + ki as u64) % laws.len() as u64) as usize];
+			let law = laws[((seed + r + ki as u64 + if only.is_some() { r / 5 } else { 0 }) % laws.len() as u64) as usize];
 			let mut g = Gen::new(rng.u64(), false);
 			let mut g2 = Gen::new(rng.u64(), false);
 			let a = *rng.pick(&[-2.0, -1.0, 2.0, 3.0, 0.5, -0.37, 1.0]);
